@@ -225,6 +225,19 @@ def clause_lookback(prog, rep, scope):
         ranges = [x for x in og.calls if x.name == "new" and "RangeInclusive" in (x.self_ty or x.path or "")]
         range_aggs = [(bb, s2) for bb, s2 in f.stmts() if s2.get("k") == "agg" and last_seg(s2.get("adt")) in ("Range", "RangeInclusive")
                       and s2["d"][0] in f.depends_on(a["p"][0])[0]]
+        if not ranges and not range_aggs and f.is_closure():
+            # the lookup sits in the body of an adaptor over the epochs (`(lo..=hi).rev().find_map(|epoch| try_epoch(epoch))`): the range is
+            # built by the function the closure is created in, and is what the adaptor iterates
+            for h in A.creators(prog, f):
+                for x in h.live_calls():
+                    if not x.args or "p" not in x.args[0] or not any(q.path == f.path or f.path in set(z.path for z in prog.family(q)) for q in A.closure_args(prog, x)):
+                        continue
+                    rdep, rcalls, _ = h.depends_on(x.args[0]["p"][0])
+                    hr = [y for y in rcalls if y.name == "new" and "RangeInclusive" in (y.self_ty or y.path or "")]
+                    ha = [(bb, s2) for bb, s2 in h.stmts() if s2.get("k") == "agg" and last_seg(s2.get("adt")) in ("Range", "RangeInclusive") and s2["d"][0] in rdep]
+                    if hr or ha:
+                        f, ranges, range_aggs = h, hr, ha
+                        a = x.args[0]
         if not ranges and not range_aggs:
             # the walk written as offsets: `(1..=L).map_while(|back| current.checked_sub(back))` — a range of distances mapped by a closure
             # that subtracts the distance from the current epoch
